@@ -11,8 +11,8 @@ for mp in sorted(glob.glob(os.path.join(HERE, 'seeded', '*', 'meta.json'))):
     what = m.get('summary') or (m.get('needs_to_manifest', '').strip().split('\n')[0][:140])
     det = m.get('detected_by', {})
     rules = sorted({x.split(' at ')[0].strip() for v in det.values() for x in v})
-    rows.append(f"| {sid} | {m['property']} | {', '.join(files)} | {what} | {'yes' if m.get('kept') else 'NO'} | "
-                f"{', '.join(rules) if rules else '**not detected**'}{' (' + m['first_run'] + ')' if m.get('first_run') else ''} |")
+    rows.append(f"| {sid} | {m['property']} | {', '.join(files)} | {what} | {'yes' if m.get('kept') else ('before ' + m['superseded'] if m.get('superseded') else 'NO')} | "
+                f"{', '.join(rules) if rules else ('silent, as it must be now' if m.get('superseded') else '**not detected**')}{' (' + m['first_run'] + ')' if m.get('first_run') else ''} |")
 table = ['| seed | property | file | change (what it needs to manifest: see meta.json) | confirmed | caught by |', '|---|---|---|---|---|---|'] + rows
 p = os.path.join(HERE, 'DESIGN.md')
 s = open(p).read()
